@@ -238,7 +238,9 @@ pub fn build(kind: Kind, label: &str, adaptive: [bool; 3], trade_enable_in: Opti
         // adaptive pools use the ts-64 adaptive tier whatever the geometry row says
         let (narrow, wide) = if adaptive[pi] { ((-128, 128), (-1280, 1280)) } else { (g.narrow, g.wide) };
         let init = if adaptive[pi] {
-            ix_init_pool_adaptive(&pool, funder, 1u128 << 64, trade_enable_in.map(|dt| (l.unix_ts + dt) as u64))
+            // world "...-te2": two adaptive-fee pools, only the LAST one has a trade-enable time in the future (the other is open)
+            let te_here = if label.ends_with("-te2") && pi != 2 { None } else { trade_enable_in };
+            ix_init_pool_adaptive(&pool, funder, 1u128 << 64, te_here.map(|dt| (l.unix_ts + dt) as u64))
         } else if pool.is_v1_capable() {
             world::ix_init_pool_v1(&pool, funder, 1u128 << 64)
         } else {
@@ -329,7 +331,7 @@ pub fn roots(w: &W3) -> Vec<(&'static str, Vec<Op3>)> {
     }
     aged.push(Op3 { pool: 0, op: Op::Clock(777) });
     aged.push(Op3 { pool: 1, op: Op::Swap { a_to_b: true, exact_in: true, amount: u64::MAX >> 8, lim: Lim::NextTick, v2: true } });
-    if w.name.ends_with("-te") {
+    if w.name.ends_with("-te") || w.name.ends_with("-te2") {
         // an adaptive-fee pool that is not yet open for trading: no swap can be part of a root
         return vec![("funded", fund)];
     }
